@@ -4,6 +4,7 @@ import (
 	"fmt"
 	"go/token"
 	"go/types"
+	"sort"
 	"strings"
 
 	"golang.org/x/tools/go/ssa"
@@ -88,6 +89,15 @@ func (e *Enc) call(ins ssa.Instruction, c *ssa.CallCommon, res *ssa.Call) {
 		name = funcName(callee)
 	}
 	if _, isLib := e.w.ModSet[callee]; isLib {
+		for _, ip := range e.implicitPre(callee) {
+			what := "recv:" + descOf(e.exprText(c.Args[0], ins))
+			cls := "nil"
+			if ip.kind == "lockfree" {
+				what, cls = "callee-acquires:"+shortCallee(name), "lock"
+				e.usedLock = true
+			}
+			e.oblige(cls, what, "", pos, e.guardGoal(e.implTerm(ip, args, e.cur)))
+		}
 		if ct := e.cs.ByFunc[name]; ct != nil {
 			var params []string
 			for _, p := range callee.Params {
@@ -128,9 +138,55 @@ func ifaceKey(c *ssa.CallCommon) string {
 	return qualName(t) + "." + c.Method.Name()
 }
 
+// havocCallWrites forgets what a library callee may write. For a heap key the callee writes only in memory it
+// allocates itself (syntactic frame analysis, freshonly.go), cells that existed before the call keep their values.
+func (e *Enc) havocCallWrites(h *Heap, writes map[string]bool, callee *ssa.Function, args []Val) {
+	if callee == nil || writes["*"] {
+		e.havocSet(h, writes)
+		return
+	}
+	existing, isLib := e.w.WritesExisting[callee]
+	if !isLib {
+		e.havocSet(h, writes)
+		return
+	}
+	if existing["*"] {
+		e.havocSet(h, map[string]bool{"*": true})
+		return
+	}
+	apre := e.allocCounter(h)
+	var keys []string
+	for k := range writes {
+		keys = append(keys, k)
+	}
+	sort.Strings(keys)
+	for _, k := range keys {
+		if existing[k] || strings.HasPrefix(k, "$") || k == "map" {
+			e.havocKey(h, k)
+			continue
+		}
+		if _, known := e.heapSort[k]; !known {
+			if srt, ok := e.w.keySort(e, k); ok {
+				e.heapGet(h, k, srt)
+			}
+		}
+		e.havocKeyFramed(h, k, apre, nil)
+	}
+}
+
 func (e *Enc) defaultCall(ins ssa.Instruction, sig *types.Signature, res *ssa.Call, writes map[string]bool, what string) {
 	h := e.cur
-	e.havocSet(h, writes)
+	var callee *ssa.Function
+	var args []Val
+	if ci, ok := ins.(ssa.CallInstruction); ok {
+		callee = ci.Common().StaticCallee()
+		if callee != nil && !ci.Common().IsInvoke() {
+			for _, a := range ci.Common().Args {
+				args = append(args, e.val(a))
+			}
+		}
+	}
+	e.havocCallWrites(h, writes, callee, args)
 	e.havocKey(h, "$A")
 	rs := e.freshResults(sig, h)
 	for _, r := range rs {
@@ -157,7 +213,7 @@ func (e *Enc) applyContract(ins ssa.Instruction, ct *Contract, callee *ssa.Funct
 			e.havocLoc(h, loc, envPre, ins)
 		}
 	} else {
-		e.havocSet(h, inferred)
+		e.havocCallWrites(h, inferred, callee, args)
 	}
 	e.havocKey(h, "$A")
 	rs := e.freshResults(sig, h)
